@@ -42,19 +42,26 @@ def apply_edit(tmp: str, m: dict[str, Any]) -> str | None:
     return None
 
 
+def _apply_patch(tmp: str, patch: str) -> str | None:
+    import subprocess
+
+    r = subprocess.run(["patch", "-s", "-p1", "--no-backup-if-mismatch", "-i", patch], cwd=tmp, capture_output=True, text=True)
+    return None if r.returncode == 0 else "patch does not apply to the current tree"
+
+
 def _one(args: tuple[str, str, dict[str, Any], list[str]]) -> dict[str, Any]:
     from .engine import analyse
 
     prop, root, m, base_fail = args
     tmp = _copy_sources(root)
     try:
-        why = apply_edit(tmp, m)
+        why = _apply_patch(tmp, m["patch"]) if "patch" in m else apply_edit(tmp, m)
         if why is not None:
             return {"id": m["id"], "status": "inapplicable", "why": why}
         ctx = analyse(prop, tmp)
         new_fail = [o for o in ctx.failures if o.key not in base_fail]
         if m.get("neutral"):
-            if new_fail or ctx.errors:
+            if new_fail or (ctx.errors and not m.get("errors_tolerated")):
                 return {"id": m["id"], "status": "false_alarm", "why": f"{[o.key for o in new_fail][:3]} {ctx.errors[:2]}"}
             return {"id": m["id"], "status": "neutral_silent"}
         hits = [o for o in new_fail if o.rule.startswith(m["expect"])]
@@ -66,13 +73,35 @@ def _one(args: tuple[str, str, dict[str, Any], list[str]]) -> dict[str, Any]:
         shutil.rmtree(tmp, ignore_errors=True)
 
 
+def _corpus(prop: str) -> list[dict[str, Any]]:
+    """sub-agent corpora kept under /verif: seeds this property's check reported (must still be reported) and every
+    behaviour-preserving variant (this property's check must stay silent)."""
+    import glob
+    import json
+
+    here = os.path.dirname(os.path.dirname(os.path.abspath(__file__)))
+    out: list[dict[str, Any]] = []
+    for mf in sorted(glob.glob(os.path.join(here, "seeded", "*", "meta.json"))):
+        m = json.load(open(mf))
+        if m.get("property") == prop and m.get("caught_by_own_property"):
+            out.append({"prop": prop, "id": f"seeded/{os.path.basename(os.path.dirname(mf))}", "patch": os.path.join(os.path.dirname(mf), "patch.diff"),
+                        "expect": prop, "neutral": False})
+    for mf in sorted(glob.glob(os.path.join(here, "neutral", "*", "meta.json"))):
+        m = json.load(open(mf))
+        if m.get("result", {}).get("applies"):
+            tolerated = prop in (m.get("result", {}).get("analysis_errors") or {})
+            out.append({"prop": prop, "id": f"neutral/{os.path.basename(os.path.dirname(mf))}", "patch": os.path.join(os.path.dirname(mf), "patch.diff"),
+                        "expect": prop, "neutral": True, "errors_tolerated": tolerated})
+    return out
+
+
 def run_selftest(prop: str, root: str) -> dict[str, Any]:
     from concurrent.futures import ProcessPoolExecutor
 
     from .engine import analyse
     from .mutants import MUTANTS
 
-    mine = [m for m in MUTANTS if m["prop"] == prop]
+    mine = [m for m in MUTANTS if m["prop"] == prop] + _corpus(prop)
     res: dict[str, Any] = {"mutants": 0, "detected": 0, "neutral": 0, "neutral_silent": 0, "inapplicable": [],
                            "missed": [], "false_alarms": [], "detail": []}
     base = analyse(prop, root)
